@@ -70,9 +70,12 @@ impl Compiler {
             //@VACUITY
             r is Err ==> final(self).instructions@ == old(self).instructions@ && final(self).last_instruction == old(self).last_instruction,
             r is Ok ==> fused_emitted(*old(self), *final(self), varname@, const_value as int, operator_sem(*operator)),
+            // static height: a fused instruction pushes exactly one value; a failed attempt emits nothing
+            r is Ok ==> final(self).height@ == hplus(old(self).height@, 1),
+            r is Err ==> final(self).height@ == old(self).height@,
             sym_resolve(old(self).symbols, varname@) is None ==> r is Err,
             gen_inv(*old(self)) ==> gen_inv(*final(self)),
-            sym_same(final(self).symbols, old(self).symbols), final(self).loop_contexts == old(self).loop_contexts, final(self).log@ == old(self).log@,
+            sym_same(final(self).symbols, old(self).symbols), final(self).loop_contexts == old(self).loop_contexts, final(self).log@ == old(self).log@, final(self).loop_h@ == old(self).loop_h@,
             old(self).constants@.len() <= final(self).constants@.len(),
             forall|i: int| 0 <= i < old(self).constants@.len() ==> final(self).constants@[i] == old(self).constants@[i],
     {
@@ -94,6 +97,8 @@ impl Compiler {
             *operator == Operator::Not ==> final(self).last_instruction == Some(OpCode::Not),
             *operator == Operator::Negate ==> final(self).last_instruction == Some(OpCode::Negate),
             same_but_code(*old(self), *final(self)),
+            // static height: a binary operator replaces two values by one, a prefix operator one by one
+            final(self).height@ == hplus(old(self).height@, if operator_sem(*operator) != op_none() { -1int } else { 0int }),
     {
 //@BODY file=compiler.rs fn=compile_operator impl=Compiler sig="fn compile_operator(&mut self, operator: &Operator)" rules="R1p;R4"
     }
@@ -107,6 +112,7 @@ impl Compiler {
     fn arm_infix(&mut self, left: &Box<Expr>, operator: &Operator, right: &Box<Expr>) -> (r: Result<(), Error>)
         requires gen_inv(*old(self)), operator_sem(*operator) != op_none()
         ensures
+            r is Ok ==> hstep(old(self).height@, final(self).height@, 1),
             //@VACUITY
             sym_wf(final(self).symbols),
             r is Ok ==> ({
